@@ -47,6 +47,7 @@ type Net struct {
 	tcp           map[string]*Listener
 	Stats         Stats
 	lastDeliverAt map[string]time.Time
+	taken         map[int64]bool // delivery instants in use (see slot)
 	// FaultsOff disables loss and duplication (bounded-liveness phase).
 	FaultsOff bool
 }
@@ -54,6 +55,23 @@ type Net struct {
 // New creates a network.
 func New(y Yielder, cfg Config) *Net {
 	return &Net{y: y, cfg: cfg, rng: cfg.Seed*0x9e3779b97f4a7c15 + 77, udp: map[string]*PacketConn{}, tcp: map[string]*Listener{}, lastDeliverAt: map[string]time.Time{}}
+}
+
+// slot returns an instant not before at that no other delivery of this network uses, and that no
+// deadline can use either: deliveries get an odd nanosecond offset, every other timer of a run is a
+// whole number of microseconds away from the start of the bubble. Two timers firing in the same
+// instant would leave the order of their effects to the Go runtime (no ties, DESIGN 2.3); packets
+// sent to one socket in the same instant with the same latency used to tie. Caller holds n.mu.
+func (n *Net) slot(at time.Time) time.Time {
+	if n.taken == nil {
+		n.taken = map[int64]bool{}
+	}
+	at = at.Add(time.Nanosecond)
+	for n.taken[at.UnixNano()] {
+		at = at.Add(2 * time.Nanosecond)
+	}
+	n.taken[at.UnixNano()] = true
+	return at
 }
 
 func (n *Net) next() uint64 {
@@ -173,8 +191,8 @@ func (n *Net) sendUDP(from, to net.Addr, p []byte) {
 		if d <= 0 {
 			d = time.Microsecond
 		}
-		delays = append(delays, d)
-		at := time.Now().Add(d)
+		at := n.slot(time.Now().Add(d))
+		delays = append(delays, time.Until(at))
 		if last, ok := n.lastDeliverAt[to.String()]; ok && at.Before(last) {
 			n.Stats.Reordered++
 		} else {
@@ -443,6 +461,9 @@ func (c *Conn) Write(p []byte) (int, error) {
 		if !at.After(c.sendAt) {
 			at = c.sendAt.Add(c.n.cfg.SegDelay + time.Microsecond)
 		}
+		c.n.mu.Lock()
+		at = c.n.slot(at)
+		c.n.mu.Unlock()
 		c.sendAt = at
 		peer := c.peer
 		time.AfterFunc(time.Until(at), func() {
@@ -467,6 +488,9 @@ func (c *Conn) CloseWrite() {
 	if !at.After(c.sendAt) {
 		at = c.sendAt.Add(time.Microsecond)
 	}
+	c.n.mu.Lock()
+	at = c.n.slot(at)
+	c.n.mu.Unlock()
 	c.sendAt = at
 	peer := c.peer
 	time.AfterFunc(time.Until(at), func() {
